@@ -37,7 +37,8 @@ RECURSIVE MetaVariants(_, _, _)
 MetaVariants(ps, DVs, ANs) ==
   IF ps = <<>> THEN {<<>>}
   ELSE LET h == Head(ps)
-           hs == {[h EXCEPT !.dv = IF h.d THEN v ELSE 0, !.an = a] : v \in DVs, a \in ANs}
+           hs == IF h.k \in {"var", "vkw"} THEN {h}      \* star parameters stay un-annotated (bounds the universe)
+                 ELSE {[h EXCEPT !.dv = IF h.d THEN v ELSE 0, !.an = a] : v \in DVs, a \in ANs}
        IN {<<x>> \o rest : x \in hs, rest \in MetaVariants(Tail(ps), DVs, ANs)}
 SigsMeta(Names, StarV, StarK, MaxNamed, DVs, ANs) ==
   UNION {MetaVariants(ps, DVs, ANs) : ps \in Sigs(Names, StarV, StarK, MaxNamed)}
